@@ -301,6 +301,27 @@ def desugar_for_ranges(b, ordinals, g, where):
                 split = (toks[i].start, toks[i + 1].end)
                 break
             i += 1
+        mfwdit = re.match(r"^([A-Za-z_][A-Za-z0-9_.]*)\.iter\(\)$", rng, re.S)
+        if split is None and mfwdit:
+            rng = "&" + mfwdit.group(1)      # R21: `VEC.iter()` is the iteration of `&VEC`
+        mrevit = re.match(r"^([A-Za-z_][A-Za-z0-9_.]*)\.iter\(\)\.rev\(\)$", rng, re.S)
+        if split is None and mrevit:
+            # R36: `for x in VEC.iter().rev() { BODY }` => `{ let verif_vec_K = &VEC; let mut verif_next_K: usize = verif_vec_K.len();
+            # while verif_next_K > 0 { verif_next_K -= 1; let x = &verif_vec_K[verif_next_K]; BODY } }` (the elements last to first)
+            vec = mrevit.group(1)
+            btoks = rustlex.lex(b)
+            bpairs = rustlex.match_brackets(btoks)
+            close = None
+            for o, c in bpairs.items():
+                if btoks[o].start == bpos:
+                    close = btoks[c].start
+            new_head = "{ let verif_vec_%d = &%s; let mut verif_next_%d: usize = verif_vec_%d.len();\n        while verif_next_%d > 0\n        " % (k, vec, k, k, k)
+            body_intro = " verif_next_%d -= 1; let %s = &verif_vec_%d[verif_next_%d];" % (k, var, k, k)
+            b = b[:kwpos] + new_head + "{" + body_intro + b[bpos + 1:close + 1] + " }" + b[close + 1:]
+            g.rewrites.append({"item": where, "rule": "R36", "loop": k, "old": header.strip(),
+                               "new": (new_head + "{" + body_intro).strip(),
+                               "why": "for over `slice.iter().rev()` (no Verus support for the Rev adapter) -> index/while loop from the last element to the first"})
+            continue
         mval = re.match(r"^(verif_[a-z_0-9]+\(.*\)|[a-z_][a-z_0-9]*)$", rng, re.S)
         if split is None and mval and not re.match(r"^&", rng):
             # R21 (by value): `for x in VEC_EXPR { BODY }` over a Vec of Copy elements (a wrapper call returning a Vec, or a
